@@ -59,6 +59,8 @@ THEOREMS = [P + n for n in [
     "html_indent_erasure",
     "html_text_before_namespaced_ok",
     "html_raw_before_namespaced_counterexample",
+    "html_indent_not_adjacent_to_text",
+    "html_void_with_children_counterexample",
 ]]
 
 WS = " \t\r\n"
@@ -200,6 +202,21 @@ def cdata_unrep_class(evs, enc):
             if ord(c) > mx and t[i + 1:].lstrip("\n")[:3] == "]]>":
                 out.add("before-]]>")
     return out
+
+
+def valid_units(t):
+    """string (python str, possibly with lone surrogates) is a sequence of XML characters"""
+    i = 0
+    while i < len(t):
+        c = ord(t[i])
+        if 0xD800 <= c <= 0xDBFF:
+            if i + 1 >= len(t) or not (0xDC00 <= ord(t[i + 1]) <= 0xDFFF):
+                return False
+            i += 1
+        elif 0xDC00 <= c <= 0xDFFF or c in (0xFFFE, 0xFFFF, 0):
+            return False
+        i += 1
+    return True
 
 
 def has_raw(nodes):
@@ -422,6 +439,7 @@ def html_norm(nodes, tab, drop_meta, ename=None):
 # option settings
 
 ENCODINGS = ["UTF-8", "UTF-16", "ISO-8859-1", "US-ASCII"]
+XF_ENCODINGS = ENCODINGS + ["UTF-16BE", "UTF-16LE"]
 PY_ENC = {"UTF-8": "utf-8", "UTF-16": "utf-16", "ISO-8859-1": "latin-1", "US-ASCII": "ascii", "": "utf-8",
           "UTF-16LE": "utf-16-le", "UTF-16BE": "utf-16-be"}
 
@@ -484,6 +502,15 @@ def check_xml_group(ctx, state, doc, evs, variants, replies, mreplies, lines, cd
     """replies: implementation replies (one per variant).  Evaluates the property predicates and the
     model correspondence for one event script under several option settings."""
     raw = has_raw(doc)
+    if kind == "sax" and not all(valid_units(x) for e in evs for x in (e[1:] if e[0] != "S" else [v for _, v in e[2]]) if isinstance(x, str)):
+        # unpaired surrogate, U+FFFE, U+FFFF, NUL: not XML characters, every setting must refuse them
+        for (tag, cfg), rep, mrep, line in zip(variants, replies, mreplies, lines):
+            key_in = {"kind": kind, "variant": tag, "cfg": cfg, "doc": doc, "line": line}
+            if not rep.startswith("ERR:"):
+                state["fail"](ctx, "xml.non-character-accepted[%s]" % tag, "a non-character was serialized: %s" % rep[:80], key_in)
+            if not mrep.startswith("ERR"):
+                state["disagree"](tag, line, rep, mrep, "model accepts a non-character")
+        return
     exp = expected_tree(doc)
     base_tree = None
     for (tag, cfg), rep, mrep, line in zip(variants, replies, mreplies, lines):
@@ -637,11 +664,16 @@ UNREP_TEXTS = ["\u20acx", "x\u20acy", "x\u20ac", "\u20ac", "\u20ac\u20ac", "x\u2
                "\u20ac]]>", "]]>\u20acx", "x\u20ac\ny", "\n\u20ac\n", "a\u20acb\u00e9c", "\u20ac]x", "]\u20ac]>x", "\u2028x\u0085y"]
 CORPUS_DOCS += [([("elem", "a", [], [("text", t), ("elem", "b", [], [("text", t)])])], cd) for t in UNREP_TEXTS for cd in (["a"], ["a", "b"], [])]
 CORPUS_DOCS += [([("elem", "a", [], [("text", t), ("text", u)])], ["a"]) for t in UNREP_TEXTS[:6] for u in ("y", "\u20ac")]
+# XML 1.1 restricted characters, line ends and TAB in CDATA / text / comments / attribute values
+CORPUS_DOCS += [([("elem", "a", [("k", t)], [("text", t), ("comment", "c\td"), ("elem", "b", [], [("text", t)])])], cd)
+                for t in ["x\ry", "\r", "x\r\ny", "\u0085x", "x\u2028", "\tx\ty", "a\u0085\u2028\rb]]>c", "\u20ac\r\u20ac"] for cd in (["a"], ["b"], [])]
+NONCHAR_DOCS = [([("elem", "a", [], [("text", t)])], cd) for t in ["x\udc00y", "\ud800", "x\ud800y", "\ufffe", "x\uffff"] for cd in (["a"], [])]
+NONCHAR_DOCS += [([("elem", "a", [("k", "\udc00")], [])], []), ([("elem", "a", [], [("comment", "c\ud800")])], [])]
 
 
 def run_sax_xml(ctx, r, runner, state):
     n = 1500 if not ctx.thorough else 12000
-    docs = [(d, c) for d, c in CORPUS_DOCS]
+    docs = [(d, c) for d, c in CORPUS_DOCS + NONCHAR_DOCS]
     for _ in range(n):
         doc = G.gen_doc(r, maxdepth=3 if not ctx.thorough else 4)
         cd = [x for x in G.NAMES if r.chance(1, 4)] if r.chance(1, 3) else []
@@ -671,6 +703,8 @@ def run_sax_xml(ctx, r, runner, state):
         return
     for off, doc, evs, tl in text_lines:
         want = "".join(e[1] for e in evs if e[0] in ("T", "C", "R"))
+        if not valid_units(want):
+            continue        # FormatterToText has no notion of XML characters
         enc = "UTF-16" if " 005500540046002d00310036 " in tl else "UTF-8"
         rep = il[off]
         inp = {"kind": "sax", "variant": "text", "doc": doc, "line": tl}
@@ -719,7 +753,7 @@ def gen_out_attrs(r, method):
     if r.chance(1, 4):
         a.append(("indentamount", r.range(0, 4)))
     if r.chance(1, 3):
-        a.append(("encoding", r.choice(ENCODINGS)))
+        a.append(("encoding", r.choice(XF_ENCODINGS)))
     if r.chance(1, 4):
         a.append(("omitdecl", r.choice(["yes", "no"])))
     if r.chance(1, 5):
@@ -744,7 +778,7 @@ def gen_api(r):
     if r.chance(1, 3):
         api["indent"] = r.range(0, 4)
     if r.chance(1, 4):
-        api["enc"] = r.choice(ENCODINGS)
+        api["enc"] = r.choice(XF_ENCODINGS)
     if r.chance(1, 6):
         api["omitmeta"] = r.range(0, 2)
     if r.chance(1, 6):
